@@ -179,7 +179,10 @@ def adversarial(rng):
                                                 b'GET /' + b'u' * k + '\u00e9'.encode() * 600,
                                                 # a declared length beyond 32 bits with a body that looks like a request
                                                 b'PUT /c%d/big HTTP/1.1\r\nContent-Length: 4294967296\r\n\r\nGET /c99/smuggled HTTP/1.1\r\n\r\n' % o,
-                                                b'PUT /c%d/big HTTP/1.1\r\nContent-Length:\r\n\r\n' % o])])
+                                                b'PUT /c%d/big HTTP/1.1\r\nContent-Length:\r\n\r\n' % o,
+                                                # a padded Content-Length name (accepted by the crate) and a body that looks like another client's request
+                                                b'PUT /c%d/own HTTP/1.1\r\n' % o + rng.choice([b'Content-Length ', b' Content-Length', b'\tcontent-length\t', b'CONTENT-LENGTH  '])
+                                                + b': 27\r\n\r\nGET /c99/other HTTP/1.1\r\n\r\n'])])
             elif q < 0.5:
                 h.ops.append([4, o])          # shutdown(RD): never reads its responses again
             elif q < 0.6:
@@ -540,7 +543,7 @@ class C07(ServerProp):
     pid = 'C07'
     rule = ('histories of up to 4 clients x {connect, send piece, close, half-close, drain} x application {poll, respond to any '
             'outstanding request, flush}: exhaustive short histories over a small op alphabet, random longer ones, and the '
-            'family "client closes with requests in flight, a new client connects, the application answers late"; responses larger than the socket buffer (short writes), also pipelined; every '
+            'family "client closes with requests in flight, a new client connects, the application answers late"; responses larger than the socket buffer (short writes), also pipelined; every static response shape answered on a live connection (compared byte for byte); a response cut by a would-block during a flush, then a late answer; answers supplied around a poll; adversarial clients sending every malformed-request kind, padded Content-Length names and request-looking bodies; every '
             'application answer echoes the URI (client tag + sequence) of the request it answers; non-trivial = at least two '
             'clients or a client that goes away')
 
@@ -717,7 +720,7 @@ class C08(ServerProp):
             'batches, out of order; polls are irregular (single polls and polls to quiescence), flush_outgoing_writes follows '
             'a quarter of the answers; polling only when the epoll descriptor is readable (poll(2)); responses up to 3 KB; '
             'plus a few histories with responses of 250 KB..1.5 MB (beyond the socket buffer: not modelled, K3 -- these are '
-            'decided by the implementation-level oracle alone and excluded from the model comparison); non-trivial = at least two clients')
+            'decided by the implementation-level oracle alone and excluded from the model comparison), also with a second answer queued behind the half-written one; every static response shape (204/100 with a body, empty, multi-byte, > 1 KiB) compared byte for byte; requests carry ignored header values; non-trivial = at least two clients')
 
     def cases(self, rng, tier):
         out = []
@@ -837,7 +840,7 @@ class C09(ServerProp):
     pid = 'C09'
     rule = ('a witness client performing request/response round trips while up to 3 other clients send valid, invalid and '
             'partial bytes, shut down either direction, close abruptly, stop reading, and the application answers their '
-            'requests late or never; non-trivial = at least one adversarial action')
+            'requests late or never; every malformed-request kind of the connection-level generator and a fixed list of degenerate lines between two witness round trips; over-long non-ASCII header lines at random offsets; responses beyond the socket buffer; a watchdog reports calls that do not return; non-trivial = at least one adversarial action')
 
     def cases(self, rng, tier):
         out = []
@@ -957,7 +960,7 @@ class C09(ServerProp):
 class C10(ServerProp):
     pid = 'C10'
     rule = ('9..13 clients around the capacity boundary, connect+close before the poll, closes with unread input, unsent '
-            'output and in-flight requests, refills; non-trivial = more than 10 clients or a close')
+            'output and in-flight requests, refills; a dead client with an unanswered request in a full table; an unwritable client answered request by request; a large response half written while the table fills and empties; non-trivial = more than 10 clients or a close')
 
     def cases(self, rng, tier):
         out = []
@@ -1116,7 +1119,7 @@ class C18(ServerProp):
     pid = 'C18'
     rule = ('C08/C09/C10 histories with the kill switch registered, signalled at a random point (idle, partial requests, unsent '
             'output, unanswered requests, at capacity with a client waiting), followed by repeated polling; each history is '
-            'also run without a kill switch and the two runs are compared up to the signal; non-trivial = kill signalled '
+            'also run without a kill switch and the two runs are compared up to the signal; kill at capacity with every descriptor ready; kill with a large response half written; non-trivial = kill signalled '
             'with at least one connection open')
 
     def cases(self, rng, tier):
